@@ -266,6 +266,15 @@ func (cs *checkerSet) c06Tx(c *TxCtx) *core.Violation {
 			}
 		}
 	}
+	// a bid is the provider's standing offer; once it has ended (withdrawn, lost) nobody else's signature
+	// brings it back: a tenant's create-lease naming such a bid changes nothing
+	if m, ok := c.Op.Msg.(*mtypes.MsgCreateLease); ok {
+		if b, had := c.Before.Bids[bid(m.BidID)]; had && b.State != mtypes.BidOpen {
+			if chs := DiffRaw(c.Before, c.After); len(chs) > 0 {
+				return r.Flag("C06/acts-through-ended-bid", "%s succeeded although the provider's bid it names was %s, and changed %d records", describeOp(c.W, c.Op), b.State, len(chs))
+			}
+		}
+	}
 	// an action the protocol assigns to a provider (close bid, withdraw) does not change the state of
 	// another provider's bid, lease, deposit account or payment (settlement may credit every payment of
 	// the account: balances are not compared) - again unless it ended the whole deployment
